@@ -156,6 +156,10 @@ func runC14(tier string) int {
 						}
 						seq2 = append(append([]mvElem{}, seq...), mvElem{src: last, steps: []string{last}})
 						src, label = c14Consts+"script S {\n\tapplymovement(1, moves("+list+"))\n\tapplymovement(2, moves("+list+" "+last+"))\n}\n", "S_Movement_0"
+						if idx%2 == 1 {
+							// ... both lists as arguments of ONE command
+							src = c14Consts + "script S {\n\tapplymovement(1, moves(" + list + "), 2, moves(" + list + " " + last + "))\n}\n"
+						}
 					}
 					res := comp.Compile(src, comp.Opts{Optimize: true, Switches: sw})
 					r.Add("evaluations", 1)
@@ -195,7 +199,7 @@ func runC14(tier string) int {
 					if seq2 != nil {
 						want2 := expectMovementBlock("S_Movement_1", seq2)
 						got2, ok2 := blockAfter(res.Out, "S_Movement_1")
-						if !ok2 || strings.Join(got2, "\n") != strings.Join(want2, "\n") || !strings.Contains(res.Out, "\tapplymovement 2, S_Movement_1\n") {
+						if !ok2 || strings.Join(got2, "\n") != strings.Join(want2, "\n") || !(strings.Contains(res.Out, "\tapplymovement 2, S_Movement_1\n") || strings.Contains(res.Out, "\tapplymovement 1, S_Movement_0, 2, S_Movement_1\n")) {
 							fail("C14:second-moves-block-differs", fmt.Sprintf("second moves() block %q, want %q", clip(strings.Join(got2, "\n"), 200), clip(strings.Join(want2, "\n"), 200)))
 						}
 					}
@@ -232,7 +236,7 @@ func runC14(tier string) int {
 	r.Assume("multipliers with a leading zero are not generated (octal vs decimal is not specified)",
 		"expected expansion is computed by the generator: N copies in order, cut after the first step_end, exactly one step_end last")
 	return r.Finish(r.Get("evaluations"), r.Get("nontrivial"),
-		"every movement list of <= L elements over 43 element kinds (3 steps x 12 multipliers incl. 0, negative, 9999, 10000, hex and a 20-digit number; 7 poryswitch-selected segments in colon, brace and nested forms incl. a nested poryswitch as the element of a colon case that other cases follow) x statement / moves() form (and two moves() in one script that differ only in the length of the last run) x 3 separator styles; every mart list of <= M items over plain items, ITEM_NONE, constants (one equal to ITEM_NONE) and poryswitch segments; plus 'step * N' for every N in 1..10005, decimal and hex, statement and moves(); plus lists of K different steps and marts of K items for every K up to the bound in the coverage; plus every identifier-like literal of the compiler's own source as a step and as a mart item; plus one script holding every moves() list of 6 (thorough 7) steps over 8 names; plus one script with a list of 41 steps for every 2-character (thorough 3-character) ending of its last step name; plus lists with J elements of multiplier 9999 each for every J up to the bound in the coverage; every file defines constants named like the case labels; non-trivial = a multiplier > 1 or a multi-step segment is present")
+		"every movement list of <= L elements over 43 element kinds (3 steps x 12 multipliers incl. 0, negative, 9999, 10000, hex and a 20-digit number; 7 poryswitch-selected segments in colon, brace and nested forms incl. a nested poryswitch as the element of a colon case that other cases follow) x statement / moves() form (and two moves() in one script - alternately in two commands and as two arguments of one command - that differ only in the length of the last run) x 3 separator styles; every mart list of <= M items over plain items, ITEM_NONE, constants (one equal to ITEM_NONE) and poryswitch segments; plus 'step * N' for every N in 1..10005, decimal and hex, statement and moves(); plus lists of K different steps and marts of K items for every K up to the bound in the coverage; plus every identifier-like literal of the compiler's own source as a step and as a mart item; plus one script holding every moves() list of 6 (thorough 7) steps over 8 names; plus one script with a list of 41 steps for every 2-character (thorough 3-character) ending of its last step name; plus lists with J elements of multiplier 9999 each for every J up to the bound in the coverage; every file defines constants named like the case labels; non-trivial = a multiplier > 1 or a multi-step segment is present")
 }
 
 // c14Scaled: the size dimension. Every multiplier value from 1 to 10005,
